@@ -29,12 +29,15 @@ RULE = (
     "(b) every recorded tiebreak is judged against independently computed tallies: genuine tie, at "
     "the seat boundary or the elimination end, resolution a strict order of exactly that set which "
     "the round's groups obey, and no unrecorded tie decision; (c) borda / first_place resolutions "
-    "are non-increasing in that score of the profile in hand.  Non-trivial = a run with >= 1 recorded "
+    "are non-increasing in that score of the profile in hand.  One case in ten is PluralityVeto on "
+    "ballots with tied positions: each recorded set must be some voter's tied last place in the "
+    "profile in hand and its resolution a strict order of exactly that set, non-increasing in the "
+    "tiebreak score.  Non-trivial = a run with >= 1 recorded "
     "tiebreak, or a profile with a score tie that does NOT straddle the boundary.  Distinct = SHA-1."
 )
 ASSUMPTIONS = [
     "random_transfer is an intentionally random rule and is excluded; RandomDictator, "
-    "BoostedRandomDictator and PluralityVeto likewise",
+    "BoostedRandomDictator and PluralityVeto likewise (for PluralityVeto only the tiebreak records are judged)",
     "the deciding tally of a round is the previous round's recorded scores (tier membership for CondoBorda)",
 ]
 
@@ -45,6 +48,19 @@ WEIGHTED = ["STV"] * 4 + ["IRV"] * 2 + ["SequentialRCV"] * 2 + ["Alaska"] * 3 + 
 
 @st.composite
 def case(draw):
+    if draw(st.integers(0, 9)) == 0:
+        # PluralityVeto's voter order is random by design, but what it records when a voter's last
+        # place is tied is a tiebreak record like any other
+        cands = draw(S.cand_names(3, 5, odd=False))
+        shared = draw(S.tied_ranking(cands, min_len=len(cands)))
+        bl = []
+        for _ in range(draw(st.integers(2, 6))):
+            r = shared if draw(st.integers(0, 2)) == 0 else draw(S.tied_ranking(cands, min_len=2))
+            bl.append({"r": r, "w": draw(st.integers(1, 2))})
+        return {"kind": "veto_records", "rule": "PluralityVeto", "cands": cands, "ballots": bl,
+                "cfg": {"m": draw(st.integers(1, len(cands) - 1)),
+                        "tiebreak": draw(st.sampled_from(["random", "borda", "first_place"]))},
+                "rng": draw(S.rng_spec())}
     base = draw(c01.case(rules=WEIGHTED))
     if base["cfg"].get("transfer") == "random":
         base["cfg"]["transfer"] = "fractional"
@@ -219,7 +235,41 @@ def has_inner_tie(case):
     return any(len(g) > 1 for g in refs.ranking_from_scores(sc)) and c01.straddle(sc, m) is None
 
 
+def check_veto_records(case):
+    out = Outcome()
+    cfg = case["cfg"]
+    tb = cfg["tiebreak"]
+    out.label("rule=PluralityVeto", f"tb={tb}")
+    prof = C.mk_profile(case["ballots"], case["cands"])
+    res = E.run("PluralityVeto", prof, cfg, case["rng"], record_steps=True)
+    if res.exc is not None or not res.states:
+        out.label("raised")  # termination / exceptions are C01's subject
+        return out
+    step_in = {st_.round_number: p for p, st_ in res.step_in}
+    n_rec = 0
+    for i, state in enumerate(res.states):
+        for K, resolution in state["tiebreaks"]:
+            n_rec += 1
+            where = f"PluralityVeto {cfg} round {i}"
+            pin = step_in.get(i - 1)
+            if pin is not None:
+                lasts = {tuple(sorted(str(c) for c in b.ranking[-1])) for b in pin.ballots if b.ranking and len(b.ranking[-1]) > 1}
+                if tuple(K) not in lasts:
+                    out.fail("record", "tied_set_is_no_voters_last_place", f"{where}: recorded set {K}, tied last places in hand {sorted(lasts)}")
+                    return out
+            flat = check_resolution(out, where, K, resolution)
+            if flat is None:
+                return out
+            check_order(out, where, flat, tb, pin)
+    out.nontrivial = n_rec > 0
+    if out.nontrivial:
+        out.labels.insert(0, "nt:PluralityVeto:recorded")
+    return out
+
+
 def check(case):
+    if case.get("kind") == "veto_records":
+        return check_veto_records(case)
     out = Outcome()
     rule, cfg = case["rule"], case["cfg"]
     prof = C.mk_profile(case["ballots"], case["cands"])
